@@ -834,6 +834,8 @@ def formats(ctx, res, binary=None, env=None, sanitizer=False):
         mal.append(Case('format-huge-width', FMT_JOURNAL, ['reg', '--format', t] + NOW, info=dict(t=t, expect='error' if wl else None)))
     if sanitizer:
         mal = mal[::3]
+    elif ctx.tier != 'thorough':
+        mal = mal[ctx.seed % 2::2]          # quick tier: half of the malformed-directive runs, alternating with the seed
     run_cases(ctx, cases + mal, 'fmt', binary, env)
     model = lib.run_model('C11', lines) if not sanitizer else [''] * len(cases)
     for case, ml in zip(cases, model):
@@ -872,6 +874,106 @@ def formats(ctx, res, binary=None, env=None, sanitizer=False):
             res.disagreements.append(dict(name='C11/directed:' + c.construct, case=c.args[2][:80], impl=got, model=exp))
     if len(res.samples) < 7 and cases:
         res.samples.append(dict(construct='format-field-ref', format=cases[0].info['fmt'], impl=obs_class(cases[0]), model=model[0]))
+
+
+# ------------------------------------------------------------------------------ early options, function arguments
+
+EARLY_OPTIONS = ['--trace', '--debug', '--verbose', '-v', '--verify', '--verify-memory', '--args-only', '--init-file', '--script',
+                 '--options', '--memory', '--version', '--help', '--full-help']
+EARLY_ARGS = ['', 'foo', '-1', '0', '1', '65535', '65536', '99999999999999999999', '1.5', ' 1', '1 ', '0x10', '1e3', '+1', '--', '-', '\xff',
+              'a' * 5000, '/nonexistent/x', '/', '.', '%s%s%s', '1;2']
+
+
+def early_options(ctx, res, binary=None, env=None, sanitizer=False):
+    j = '2020/01/01 p\n  A  $1\n  B\n'
+    cases = []
+    dg = GUARDS.get('debug_options_guard')
+    for o in EARLY_OPTIONS:
+        if o in ('--help', '--full-help'):
+            continue                                # start a pager / man
+        for i, a in enumerate(EARLY_ARGS):
+            exp = None
+            if o == '--trace':
+                # boost::lexical_cast<uint16_t>: an optional sign and digits, value within 16 bits
+                numeric = re.fullmatch(r'[+-]?[0-9]+', a) is not None and abs(int(a)) <= 65535
+                exp = ('ok' if numeric else 'error') if dg else None
+            for pos in range(3):
+                if (i + pos) % 3 and o != '--trace':
+                    continue                        # one position per (option, argument), all three for --trace
+                args = {0: [o, a, 'bal'], 1: ['bal', o, a], 2: ['--args-only', o, a, 'bal']}[pos]
+                cases.append(Case('early-option:' + o, j, args, info=dict(expect=exp if pos != 1 or a != '' else None)))
+        cases.append(Case('early-option:' + o, j, ['bal', o], info={}))          # the option last, without argument
+        cases.append(Case('early-option:' + o, None, [o], info={}))
+    for o in ('--script', '--init-file'):
+        cases.append(Case('early-option:' + o, j, [o, '@dir@', 'bal'], files={'dir': ''}, info={}))
+    run_cases(ctx, cases, 'early', binary, env)
+    for c in cases:
+        res.evaluations += 1
+        res.count('early-option')
+        add_violations(res, c, judge(c, sanitizer))
+        exp = c.info.get('expect')
+        if exp and not sanitizer:
+            res.traces += 1
+            got = obs_class(c)
+            if got != exp and got != 'timeout' and not got.startswith('signal'):
+                res.disagreements.append(dict(name='C11/directed:' + c.construct, case=[a[:40] for a in c.args], impl=got, model=exp))
+
+
+FN_NUMBERS = ['0', '-1', '2147483647', '2147483648', '9223372036854775807', '1000000000000', '-2147483648', '-9223372036854775808',
+              '9223372036854775808', '65535', '65536', '4095', '4096']
+FN_FIRSTS = ['1', '$10.00', '"abc"', '[2020/01/01]', '(1, 2, 3)', '($1 + 2 EUR)', 'true']
+
+
+def function_arguments(ctx, res, binary=None, env=None, sanitizer=False):
+    """every value-expression function of report_t::lookup with extreme numeric arguments"""
+    rng = ctx.rng
+    fns = c11_buffers.report_functions(lib.REPO)
+    res.extra['report_functions'] = len(fns)
+    if len(fns) < 40:
+        res.disagreements.append(dict(name='C11/report-functions', case='report.cc lookup', impl='%d functions found' % len(fns), model='>= 40'))
+    jl = GUARDS.get('justify_width_limit')
+    forms = []
+    for f in fns:
+        for n in FN_NUMBERS:
+            forms.append((f, '%s(%s)' % (f, n), None))
+            for a in FN_FIRSTS:
+                forms.append((f, '%s(%s, %s)' % (f, a, n), (int(n),)))
+                forms.append((f, '%s(%s, %s, %s)' % (f, a, n, n), (int(n), int(n))))
+                forms.append((f, '%s(%s, 5, %s)' % (f, a, n), (5, int(n))))
+    want = ctx.scale(1500, len(forms))
+    pick = forms if want >= len(forms) else rng.sample(forms, want)
+    # justify: all its forms, but while the width is not bounded in the source only one of the
+    # hanging ones (each costs the whole time limit)
+    pick = [x for x in pick if x[0] != 'justify'] + [x for x in forms if x[0] == 'justify']
+    if jl is None:
+        keep, hanging = [], 0
+        for x in pick:
+            if x[0] == 'justify' and x[2] and any(abs(v_) >= 2 ** 31 - 1 for v_ in x[2]):
+                hanging += 1
+                if hanging > 1:
+                    continue
+            keep.append(x)
+        pick = keep
+    cases = [Case('function-argument:' + f, '2020/01/01 p\n  A  $1\n  B\n', ['eval', e] + NOW, info=dict(fn=f, e=e, w=w)) for f, e, w in pick]
+    run_cases(ctx, cases, 'fn', binary, env)
+    for c in cases:
+        res.evaluations += 1
+        res.count('function-argument')
+        add_violations(res, c, judge(c, sanitizer))
+        if c.info['fn'] == 'justify' and c.info['w'] and jl is not None and not sanitizer:
+            # the widths are C ints: what does not fit wraps around or is refused by to_int
+            w = c.info['w']
+            res.traces += 1
+            got = obs_class(c)
+            if all(abs(x) <= jl for x in w):
+                exp = 'ok'
+            elif any(jl < abs(x) <= 2 ** 31 for x in w):
+                exp = 'error'
+            else:
+                exp = None
+            res.nontrivial.add('justify:%s' % (w,))
+            if exp and got != exp and got != 'timeout' and not got.startswith('signal'):
+                res.disagreements.append(dict(name='C11/directed:justify-width', case=c.info['e'], impl=got, model=exp))
 
 
 # ------------------------------------------------------------------------------ account aliases
@@ -1345,6 +1447,7 @@ def sanitizer_tier(ctx, res, sites):
         long_tokens(ctx, sub, binary, env, sanitizer=True)
         formats(ctx, sub, binary, env, sanitizer=True)
         aliases(ctx, sub, binary, env, sanitizer=True)
+        early_options(ctx, sub, binary, env, sanitizer=True)
         periods_s = lib.Result()
         nesting_light(ctx, sub, binary, env)
         mutation(ctx, sub, ctx.scale(0, 400), binary, env, sanitizer=True, tag="smut")
@@ -1401,8 +1504,9 @@ def run(ctx, light=False):
     phases = [('buffers', lambda: buffers(ctx, res, sites)), ('escapes', lambda: escapes(ctx, res)),
               ('nesting', lambda: nesting(ctx, res)), ('division', lambda: division(ctx, res)),
               ('periods', lambda: periods(ctx, res)), ('truncated', lambda: truncated(ctx, res)),
-              ('long_tokens', lambda: long_tokens(ctx, res)), ('formats', lambda: formats(ctx, res)), ('aliases', lambda: aliases(ctx, res)),
-              ('mutation', lambda: mutation(ctx, res, ctx.scale(8000, 16000)))]
+              ('long_tokens', lambda: long_tokens(ctx, res)), ('formats', lambda: formats(ctx, res)), ('aliases', lambda: aliases(ctx, res)), ('early_options', lambda: early_options(ctx, res)),
+              ('function_arguments', lambda: function_arguments(ctx, res)),
+              ('mutation', lambda: mutation(ctx, res, ctx.scale(6000, 16000)))]
     if ctx.tier == 'thorough' and not light:
         phases.append(('sanitizer', lambda: sanitizer_tier(ctx, res, sites)))
     res.extra['phase_wall_s'] = {}
@@ -1426,6 +1530,8 @@ def search(ctx, broken):
         long_tokens(ctx, r)
         formats(ctx, r)
         aliases(ctx, r)
+        early_options(ctx, r)
+        function_arguments(ctx, r)
         mutation(ctx, r, 6000, tag='srch')
         known = [k for k in lib.load_known_findings() if k['prop'] == 'C11']
         new = [v for v in r.violations if not any(re.fullmatch(k['match'], v['key']) for k in known)]
